@@ -149,7 +149,8 @@ def write_crate(d, modules, crate_name, features=None, lib_attrs='', extra_files
         f.write(CARGO_TOML.format(name=crate_name, repo=REPO, features=feat))
     copy_lock(d)
     shutil.copy(os.path.join(VERIF, 'vk', 'support.rs'), os.path.join(d, 'src', 'support.rs'))
-    lib = FEATURES + lib_attrs + '#![allow(dead_code, unused_imports, unused_macros)]\npub mod support;\n'
+    # `stdx` is the standard library under a name generated code cannot know (C19 renames `std` itself at the crate root)
+    lib = FEATURES + '#![allow(dead_code, unused_imports, unused_macros, unused_extern_crates)]\n' + lib_attrs + 'pub extern crate std as stdx;\npub mod support;\n'
     disp = 'pub fn dispatch(name: &str) {\n    match name {\n'
     for m in modules:
         lib += f'pub mod {m.name};\n'
@@ -287,7 +288,10 @@ def concrete_playback(d, target_dir, full_name, need_stubbing=False, timeout=600
     rc, out = sh(cmd, cwd=d, timeout=timeout)
     tests = []
     cur = None
+    is_cover = False
     for line in out.splitlines():
+        if line.startswith('/// Check for'):
+            is_cover = '`cover`' in line
         if 'let concrete_vals' in line:
             cur = []
             continue
@@ -296,8 +300,10 @@ def concrete_playback(d, target_dir, full_name, need_stubbing=False, timeout=600
             if m:
                 cur.append([int(x) for x in m.group(1).replace(' ', '').split(',') if x != ''])
             elif 'concrete_playback_run' in line:
-                tests.append(cur)
+                tests.append((is_cover, cur))
                 cur = None
+    # Kani prints one test per failed check *and* per satisfied cover: the failed checks' inputs go first
+    tests = [t for c, t in tests if not c] + [t for c, t in tests if c]
     return tests, out
 
 
@@ -479,7 +485,7 @@ def evaluate(prop, tier, modules, kr, alive, d, target_dir, need_stubbing=False,
             only_ptr = all(c['cat'] not in ('assertion',) for c in failed)
             reproduced = None
             tried = []
-            for vals in tests[:4]:
+            for vals in tests[:6]:
                 oc.replays += 1
                 res, outs = native_replay(dst, full, vals, native_target, miri=False)
                 tried.append(dict(vals=vals, res=res))
